@@ -29,8 +29,10 @@ Fixpoint geval (env : level -> option obs) (self : obs) (m : mask) : bool :=
   | leaf => call leaf self
   end.
 
-Definition env_chord (co : obs) : level -> option obs :=
-  fun lv => match lv with LChord => Some co | _ => None end.
+Definition env_chord (so co : obs) : level -> option obs :=
+  fun lv => match lv with LScore => Some so | LChord => Some co | _ => None end.
+Definition env_melody_all (so co po : obs) : level -> option obs :=
+  fun lv => match lv with LScore => Some so | LChord => Some co | LMelody => Some po | LNote => None end.
 Definition env_melody (so po : obs) : level -> option obs :=
   fun lv => match lv with LScore => Some so | LMelody => Some po | _ => None end.
 Definition env_note (so co no : obs) : level -> option obs :=
@@ -40,13 +42,14 @@ Definition env_all (so co po no : obs) : level -> option obs :=
 
 Lemma level_eqb_refl l : level_eqb l l = true. Proof. destruct l; reflexivity. Qed.
 
-(* what apply_on_score asks about a chord *)
-Lemma chord_verdict m co : o_level co = LChord -> call m co = geval (env_chord co) co m.
+(* what apply_on_score asks about a chord: the mask with the score's own guards frozen *)
+Lemma chord_verdict m so co : o_level so = LScore -> o_level co = LChord ->
+  call (child m so) co = geval (env_chord so co) co m.
 Proof.
-  intros L. induction m; cbn [call geval]; try reflexivity.
+  intros LS L. induction m; cbn [call child geval]; try reflexivity.
   - rewrite IHm1, IHm2. reflexivity.
   - rewrite IHm1, IHm2. reflexivity.
-  - rewrite L. destruct lv; cbn; reflexivity.
+  - rewrite LS. destruct lv; cbn [level_eqb call env_chord]; rewrite ?LS, ?L; cbn; reflexivity.
 Qed.
 
 (* what apply_on_chord asks about a melody, with the mask handed down by apply_on_score *)
@@ -79,12 +82,21 @@ Fixpoint separable (m : mask) : bool :=
   end.
 
 Lemma separable_natural m so co po no : separable m = true ->
-  geval (env_chord co) co m && geval (env_melody so po) po m && geval (env_note so co no) no m
+  geval (env_chord so co) co m && geval (env_melody so po) po m && geval (env_note so co no) no m
   = geval (env_all so co po no) no m.
 Proof.
   induction m; cbn [separable]; try discriminate; intros H.
   - apply andb_prop in H. destruct H as [H1 H2]. cbn [geval]. rewrite <- (IHm1 H1), <- (IHm2 H2). btauto.
   - cbn [geval]. destruct lv; cbn [env_chord env_melody env_note env_all]; btauto.
+Qed.
+
+(* melody-level transformers: the chord gate and the melody gate together are the mask's verdict on the melody with its chord and score *)
+Lemma separable_natural_melody m so co po : separable m = true ->
+  geval (env_chord so co) co m && geval (env_melody so po) po m = geval (env_melody_all so co po) po m.
+Proof.
+  induction m; cbn [separable]; try discriminate; intros H.
+  - apply andb_prop in H. destruct H as [H1 H2]. cbn [geval]. rewrite <- (IHm1 H1), <- (IHm2 H2). btauto.
+  - cbn [geval]. destruct lv; cbn [env_chord env_melody env_melody_all]; btauto.
 Qed.
 
 (* ~ is the De Morgan dual: on an element of the guarded level (or for unguarded masks) it negates the verdict *)
